@@ -261,8 +261,14 @@ def dumphist_plans(draw, tier):
     for slot, kind in enumerate(kinds):
         spec = specs[0] if slot < 2 or nspecs == 1 else draw(st.sampled_from(specs))
         names = [c['name'] for c in spec['classes']]
-        setup.append({'op': 'mk', 'slot': slot, 'kind': kind, 'spec': spec['uid'],
-                      'order': list(draw(st.permutations(names)))})
+        mk = {'op': 'mk', 'slot': slot, 'kind': kind, 'spec': spec['uid'],
+              'order': list(draw(st.permutations(names)))}
+        if len(names) > 1 and draw(st.integers(0, 3)) == 0:
+            # a dump function that knows only some of the classes (e.g. a derived
+            # class without its base)
+            k = draw(st.integers(1, len(names) - 1))
+            mk['only'] = sorted(draw(st.permutations(names))[:k])
+        setup.append(mk)
     mks = list(setup)
     shared = {}
     for j in range(draw(st.integers(1, 4))):
@@ -274,6 +280,14 @@ def dumphist_plans(draw, tier):
     for t in range(K):
         oplist = []
         for i in range(draw(st.integers(2, 8 if K == 1 else 5))):
+            if draw(st.integers(0, 9)) == 0:
+                # another dump function comes into being between two dumps
+                spec = draw(st.sampled_from(specs))
+                names = [c['name'] for c in spec['classes']]
+                oplist.append({'op': 'mk', 'slot': 100 + 10 * t + i,
+                               'kind': draw(st.sampled_from(['dumps', 'dumps_json', 'dump'])),
+                               'spec': spec['uid'], 'order': list(draw(st.permutations(names)))})
+                continue
             mk = draw(st.sampled_from(mks))
             op = {'op': mk['kind'], 'slot': mk['slot'], 'shared': draw(st.sampled_from(sorted(shared)))}
             if mk['kind'] in ('dumps_json', 'dump_json'):
